@@ -174,3 +174,75 @@ end
 
 end Ctx
 end Anonymongo
+
+namespace Anonymongo
+namespace Ctx
+
+theorem node_obj_not_leaf' (c : Ctx) (s : St) (kvs : List (Str × J)) (o : J) : c.node s (.obj kvs) ≠ .leaf o := by
+  intro h
+  cases s <;> simp only [node] at h <;> (try (repeat' split at h)) <;> cases h
+
+theorem node_arr_not_leaf' (c : Ctx) (s : St) (xs : List J) (o : J) : c.node s (.arr xs) ≠ .leaf o := by
+  intro h
+  cases s <;> simp only [node] at h <;> (try (repeat' split at h)) <;> cases h
+
+mutual
+/-- every tree is related to its own redaction by any leaf relation that relates each scalar to what
+    the walker emits for it (field-name redaction off, so that keys are not renamed) -/
+theorem relAt_run (c : Ctx) (hrfn : c.rfn = false) (R : St → J → J → Prop)
+    (hR : ∀ s a, a.isScalar = true → R s a (c.run s a)) :
+    ∀ (s : St) (v : J), v.nodup = true → c.RelAt R s v (c.run s v)
+  | s, .obj kvs, hn => by
+    simp only [RelAt, run]
+    cases hnode : c.node s (.obj kvs) with
+    | obj f =>
+      simp only [J.nodup, Bool.and_eq_true] at hn
+      have hk := (shapeOK_of_noRfn c hrfn).keys s _ f hnode
+      have ⟨h1, h2⟩ := relKVs_run c hrfn R hR f hk kvs hn.2
+      simp only []
+      rw [fromPairs_of_nodup _ (by rw [h2]; exact hn.1)]
+      exact ⟨_, rfl, h1⟩
+    | keep => simp
+    | arr s' => simp
+    | leaf o => exact absurd hnode (node_obj_not_leaf' c s kvs o)
+  | s, .arr xs, hn => by
+    simp only [RelAt, run]
+    cases hnode : c.node s (.arr xs) with
+    | arr s' =>
+      simp only [J.nodup] at hn
+      exact ⟨_, rfl, relList_run c hrfn R hR s' xs hn⟩
+    | keep => simp
+    | obj f => simp
+    | leaf o => exact absurd hnode (node_arr_not_leaf' c s xs o)
+  | s, .null, _ => by simp only [RelAt]; exact hR s .null (by simp [J.isScalar])
+  | s, .bool x, _ => by simp only [RelAt]; exact hR s (.bool x) (by simp [J.isScalar])
+  | s, .num x, _ => by simp only [RelAt]; exact hR s (.num x) (by simp [J.isScalar])
+  | s, .str x, _ => by simp only [RelAt]; exact hR s (.str x) (by simp [J.isScalar])
+
+theorem relKVs_run (c : Ctx) (hrfn : c.rfn = false) (R : St → J → J → Prop)
+    (hR : ∀ s a, a.isScalar = true → R s a (c.run s a))
+    (f : Str → J → Str × St) (hk : ∀ k x, (f k x).1 = k) :
+    ∀ kvs, nodupKVs kvs = true →
+      c.RelKVs R f kvs (c.runKVs f kvs) ∧ keysOf (c.runKVs f kvs) = keysOf kvs
+  | [], _ => by simp [RelKVs, runKVs, keysOf]
+  | (k, v) :: rest, hn => by
+    simp only [nodupKVs, Bool.and_eq_true] at hn
+    have ⟨h1, h2⟩ := relKVs_run c hrfn R hR f hk rest hn.2
+    have h3 := relAt_run c hrfn R hR (f k v).2 v hn.1
+    refine ⟨?_, ?_⟩
+    · simp only [RelKVs, runKVs, hk]
+      exact ⟨_, _, rfl, h3, h1⟩
+    · simp only [runKVs, keysOf_cons, hk, h2]
+
+theorem relList_run (c : Ctx) (hrfn : c.rfn = false) (R : St → J → J → Prop)
+    (hR : ∀ s a, a.isScalar = true → R s a (c.run s a)) :
+    ∀ (s : St) (xs : List J), nodupList xs = true → c.RelList R s xs (c.runList s xs)
+  | _, [], _ => by simp [RelList, runList]
+  | s, x :: xs, hn => by
+    simp only [nodupList, Bool.and_eq_true] at hn
+    simp only [RelList, runList]
+    exact ⟨_, _, rfl, relAt_run c hrfn R hR s x hn.1, relList_run c hrfn R hR s xs hn.2⟩
+end
+
+end Ctx
+end Anonymongo
